@@ -668,3 +668,322 @@ Proof.
     replace (k - length (buf_pending b1)) with 0 by lia. cbn [firstn]. rewrite app_nil_r. reflexivity.
   - rewrite Hpend, skipn_app. replace (k - length (buf_pending b1)) with 0 by lia. reflexivity.
 Qed.
+
+(* ---------------------------------------------------------------------- *)
+(* Take                                                                    *)
+
+(* Take::read: never delivers more than the limit; the k bytes delivered are
+   the next k bytes of the stream, placed at the start of the destination;
+   the limit decreases by exactly k; errors leave limit and buffer alone. *)
+Theorem take_read_spec limit a src v :
+  wf v ->
+  let '(o, v', src', limit') := take_read limit a src v in
+  match o with
+  | OOk k => k <= limit /\ k <= vcap v /\ limit' = limit - k /\
+             src' = skipn k src /\ k <= length src /\
+             cells v' = firstn k src ++ skipn k (cells v) /\
+             vlen v' = Nat.max (vlen v) k
+  | OErr _ => v' = v /\ src' = src /\ limit' = limit
+  end.
+Proof.
+  intros Hwf. unfold take_read.
+  destruct (Nat.eqb_spec limit 0) as [E|E].
+  { subst. cbn [firstn skipn app]. repeat split; lia. }
+  destruct a as [a|].
+  2:{ cbn [firstn skipn app]. repeat split; lia. }
+  destruct (reader_step a (Nat.min limit (vcap v)) src) as [[r bs] src1] eqn:Hstep.
+  destruct (reader_step_spec _ _ _ _ _ _ Hstep) as (k & Hbs & Hsrc1 & Hkc & Hks & Hlen & Hr).
+  destruct r as [k'|e].
+  - subst k'. destruct (Nat.eqb_spec k 0) as [Ek|Ek].
+    + subst. cbn [firstn skipn app]. repeat split; lia.
+    + rewrite slice_fill_cells, write_at_0, slice_fill_vlen by lia.
+      rewrite Hlen. subst bs src1. cbn [plus]. repeat split; try lia.
+  - subst. repeat split; reflexivity.
+Qed.
+
+(* ---------------------------------------------------------------------- *)
+(* in-memory writers: Vec<u8> has file semantics                           *)
+
+(* what a file holding [l] contains after pwrite(bs, pos): a hole is zero-filled *)
+Definition file_write (l : list byte) (pos : nat) (bs : list byte) : list byte :=
+  let l' := l ++ repeat 0%N (pos - length l) in
+  firstn pos l' ++ bs ++ skipn (pos + length bs) l'.
+
+Lemma vextend_spec v bs :
+  wf v -> wf (vextend v bs) /\ vinit (vextend v bs) = vinit v ++ bs /\
+          vlen (vextend v bs) = vlen v + length bs.
+Proof.
+  intros Hwf. unfold vextend.
+  destruct (vreserve_spec v (length bs) Hwf) as (Hw1 & Hl1 & Hi1 & Hroom & _).
+  set (v1 := vreserve v (length bs)) in *.
+  assert (Hfit : vlen v1 + length bs <= vcap v1) by (unfold wf in Hw1; lia).
+  assert (E : mkvec (write_at (cells v1) (vlen v1) bs) (vlen v1 + length bs)
+              = slice_fill v1 (vlen v1) bs).
+  { unfold slice_fill. f_equal. replace (vlen v1 - vlen v1) with 0 by lia.
+    destruct (Nat.ltb_spec 0 (length bs)); lia. }
+  rewrite E. split.
+  - unfold wf. rewrite slice_fill_vcap, slice_fill_vlen by lia. lia.
+  - split; [rewrite vinit_slice_fill_end by assumption; congruence|].
+    rewrite slice_fill_vlen by lia. lia.
+Qed.
+
+Theorem vec_write_appends d bs :
+  wf d -> let '(k, d') := vec_write d bs in
+          k = length bs /\ wf d' /\ vinit d' = vinit d ++ bs.
+Proof.
+  intros Hwf. unfold vec_write. destruct (vextend_spec d bs Hwf) as (H1 & H2 & _). auto.
+Qed.
+
+Lemma fold_vextend_spec : forall bss d,
+  wf d -> wf (fold_left vextend bss d) /\
+          vinit (fold_left vextend bss d) = vinit d ++ concat bss.
+Proof.
+  induction bss as [|bs bss IH]; intros d Hwf; cbn [fold_left concat].
+  - rewrite app_nil_r. auto.
+  - destruct (vextend_spec d bs Hwf) as (H1 & H2 & _).
+    destruct (IH (vextend d bs) H1) as (H3 & H4). split; [exact H3|].
+    rewrite H4, H2, app_assoc. reflexivity.
+Qed.
+
+(* the vectored write is the sequential composition of the single writes:
+   it appends the concatenation, for every destination and every list of
+   buffers (no subtraction, no panic: the functions are total) *)
+Theorem vec_write_vectored_is_concat d bss :
+  wf d -> let '(k, d') := vec_write_vectored d bss in
+          k = length (concat bss) /\ wf d' /\ vinit d' = vinit d ++ concat bss.
+Proof.
+  intros Hwf. unfold vec_write_vectored.
+  destruct (vreserve_spec d (length (concat bss)) Hwf) as (Hw1 & _ & Hi1 & _).
+  destruct (fold_vextend_spec bss _ Hw1) as (H1 & H2).
+  split; [reflexivity|]. split; [exact H1|]. rewrite H2, Hi1. reflexivity.
+Qed.
+
+(* <[u8] as AsyncWriteAt>::write_at on a fixed slice: clamped, never grows *)
+Theorem slice_write_at_spec dst bs pos :
+  let '(n, d') := slice_write_at dst bs pos in
+  length d' = length dst /\ n <= length bs /\
+  n = Nat.min (length bs) (length dst - Nat.min pos (length dst)) /\
+  d' = write_at dst (Nat.min pos (length dst)) (firstn n bs).
+Proof.
+  unfold slice_write_at. cbv zeta.
+  set (p := Nat.min pos (length dst)). set (n := Nat.min (length bs) (length dst - p)).
+  split; [|split; [lia|split; reflexivity]].
+  apply write_at_length. rewrite firstn_length. lia.
+Qed.
+
+(* <[u8] as AsyncReadAt>::read_at: position clamped, never a panic *)
+Theorem mem_read_at_spec this v pos :
+  wf v ->
+  let '(k, v') := mem_read_at this v pos in
+  let s := skipn (Nat.min pos (length this)) this in
+  k = Nat.min (length s) (vcap v) /\
+  cells v' = firstn k s ++ skipn k (cells v) /\ vlen v' = Nat.max (vlen v) k.
+Proof.
+  intros Hwf. unfold mem_read_at.
+  pose proof (slice_to_vec_spec (skipn (Nat.min pos (length this)) this) v Hwf) as H.
+  destruct (slice_to_vec (skipn (Nat.min pos (length this)) this) v) as [k v'].
+  destruct H as (H1 & H2 & H3 & _). auto.
+Qed.
+
+(* vectored in-memory read into fresh members: the members receive, in order,
+   consecutive pieces of the source; their concatenation is its prefix *)
+Lemma fill_members_spec : forall ms this,
+  Forall (fun m => vlen m = 0) ms ->
+  concat (map vinit (fill_members this ms)) = firstn (total_cap ms) this /\
+  map vcap (fill_members this ms) = map vcap ms.
+Proof.
+  induction ms as [|m ms IH]; intros this Hf; cbn [fill_members map concat total_cap fold_right].
+  - cbn. split; reflexivity.
+  - inversion Hf as [|? ? Hm Hms]; subst.
+    destruct (IH (skipn (Nat.min (length this) (vcap m)) this) Hms) as (IH1 & IH2).
+    set (k := Nat.min (length this) (vcap m)) in *.
+    fold (total_cap ms).
+    destruct (Nat.eqb_spec k 0) as [E|E].
+    + rewrite IH1, IH2. split; [|reflexivity].
+      unfold vinit. rewrite Hm. cbn [firstn app]. rewrite E. cbn [skipn].
+      assert (Hz : length this = 0 \/ vcap m = 0) by lia. destruct Hz as [Hz|Hz].
+      * apply length_zero_iff_nil in Hz. subst. rewrite !firstn_nil. reflexivity.
+      * rewrite Hz. reflexivity.
+    + rewrite IH1, IH2. split.
+      * unfold vinit at 1. cbn [cells vlen]. rewrite write_at_0.
+        assert (Hl : length (firstn k this) = k) by (rewrite firstn_length; lia).
+        rewrite <- Hl at 1. rewrite (firstn_app_exact0 _ _ _ eq_refl).
+        destruct (Nat.lt_ge_cases (length this) (vcap m)) as [Hlt|Hge].
+        -- replace k with (length this) by lia. rewrite skipn_all. rewrite firstn_nil, app_nil_r.
+           rewrite firstn_all. rewrite firstn_all2 by lia. reflexivity.
+        -- replace k with (vcap m) by lia. apply firstn_add_skipn.
+      * f_equal. unfold vcap. cbn [cells]. apply write_at_length. cbn. rewrite firstn_length.
+        unfold vcap in *. lia.
+Qed.
+
+(* ---------------------------------------------------------------------- *)
+(* Vec<u8>::write_at / write_vectored_at = pwrite on a file                 *)
+
+Lemma file_write_inside l pos bs :
+  pos <= length l ->
+  file_write l pos bs = firstn pos l ++ bs ++ skipn (pos + length bs) l.
+Proof.
+  intros H. unfold file_write. replace (pos - length l) with 0 by lia.
+  cbn [repeat]. rewrite app_nil_r. reflexivity.
+Qed.
+
+Lemma file_write_beyond l pos bs :
+  length l <= pos ->
+  file_write l pos bs = l ++ repeat 0%N (pos - length l) ++ bs.
+Proof.
+  intros H. unfold file_write.
+  set (l' := l ++ repeat 0%N (pos - length l)).
+  assert (Hl : length l' = pos) by (unfold l'; rewrite app_length, repeat_length; lia).
+  rewrite firstn_all2 by lia. rewrite skipn_all2 by lia. rewrite app_nil_r.
+  unfold l'. rewrite <- app_assoc. reflexivity.
+Qed.
+
+Lemma firstn_write_at (c : list byte) off bs n :
+  off + length bs <= n -> n <= length c ->
+  firstn n (write_at c off bs) = write_at (firstn n c) off bs.
+Proof.
+  intros H1 H2. unfold write_at.
+  rewrite firstn_firstn. replace (Nat.min off n) with off by lia.
+  rewrite skipn_firstn_comm.
+  assert (Hx : length (firstn off c) = off) by (rewrite firstn_length; lia).
+  replace n with (off + (n - off)) at 1 by lia.
+  rewrite (firstn_app_exact _ _ off (n - off) Hx). f_equal.
+  replace (n - off) with (length bs + (n - (off + length bs))) by lia.
+  rewrite (firstn_app_exact bs _ (length bs) _ eq_refl). reflexivity.
+Qed.
+
+Lemma overwrite_inside_spec d pos bs :
+  wf d -> pos + length bs <= vlen d ->
+  let d' := mkvec (write_at (cells d) pos bs) (vlen d) in
+  wf d' /\ vinit d' = file_write (vinit d) pos bs /\ vlen d' = vlen d.
+Proof.
+  intros Hwf Hfit. cbv zeta. unfold wf, vcap, vinit in *. cbn [cells vlen].
+  rewrite write_at_length by lia. split; [exact Hwf|]. split; [|reflexivity].
+  rewrite firstn_write_at by lia.
+  rewrite file_write_inside by (rewrite firstn_length; lia). reflexivity.
+Qed.
+
+(* one piece written at [pos <= len]: the loop body of write_vectored_at and
+   the first branch of write_at (without the reserve) *)
+Definition write_piece (d : vec) (bs : list byte) (pos : nat) : vec :=
+  let n := Nat.min (length bs) (vlen d - pos) in
+  if Nat.ltb n (length bs)
+  then vextend (mkvec (write_at (cells d) pos (firstn n bs)) (vlen d)) (skipn n bs)
+  else mkvec (write_at (cells d) pos bs) (vlen d).
+
+Lemma write_piece_spec d bs pos :
+  wf d -> pos <= vlen d ->
+  wf (write_piece d bs pos) /\
+  vinit (write_piece d bs pos) = file_write (vinit d) pos bs /\
+  pos + length bs <= vlen (write_piece d bs pos).
+Proof.
+  intros Hwf Hpos. unfold write_piece.
+  set (n := Nat.min (length bs) (vlen d - pos)).
+  pose proof (vinit_length d Hwf) as Hil.
+  destruct (Nat.ltb_spec n (length bs)) as [Hlt|Hge].
+  - assert (Hn : n = vlen d - pos) by lia.
+    assert (Hfl : length (firstn n bs) = n) by (rewrite firstn_length; lia).
+    destruct (overwrite_inside_spec d pos (firstn n bs) Hwf ltac:(lia)) as (Hw2 & Hi2 & Hl2).
+    set (d2 := mkvec (write_at (cells d) pos (firstn n bs)) (vlen d)) in *.
+    destruct (vextend_spec d2 (skipn n bs) Hw2) as (Hw3 & Hi3 & Hl3).
+    split; [exact Hw3|]. split.
+    + rewrite Hi3, Hi2. rewrite !file_write_inside by lia.
+      rewrite Hfl. rewrite (skipn_all2 (vinit d)) by lia.
+      rewrite (skipn_all2 (vinit d)) by lia. rewrite !app_nil_r.
+      rewrite <- app_assoc. rewrite firstn_skipn. reflexivity.
+    + rewrite Hl3, Hl2, skipn_length. lia.
+  - destruct (overwrite_inside_spec d pos bs Hwf ltac:(lia)) as (Hw2 & Hi2 & Hl2).
+    split; [exact Hw2|]. split; [exact Hi2|]. rewrite Hl2. lia.
+Qed.
+
+(* Vec<u8>::write_at has file semantics for every position, inside, at the end
+   or beyond the end (the hole is zero-filled); it never panics *)
+Theorem vec_write_at_file d bs pos :
+  wf d ->
+  let '(k, d') := vec_write_at d bs pos in
+  k = length bs /\ wf d' /\ vinit d' = file_write (vinit d) pos bs.
+Proof.
+  intros Hwf. unfold vec_write_at.
+  pose proof (vinit_length d Hwf) as Hil.
+  destruct (Nat.leb_spec pos (vlen d)) as [Hin|Hout].
+  - set (n := Nat.min (length bs) (vlen d - pos)).
+    destruct (Nat.ltb_spec n (length bs)) as [Hlt|Hge].
+    + destruct (vreserve_spec d (length bs - n) Hwf) as (Hw1 & Hl1 & Hi1 & _).
+      set (d1 := vreserve d (length bs - n)) in *.
+      pose proof (write_piece_spec d1 bs pos Hw1 ltac:(lia)) as Hp.
+      unfold write_piece in Hp. rewrite Hl1 in Hp. fold n in Hp.
+      destruct (Nat.ltb_spec n (length bs)); [|lia].
+      destruct Hp as (H1 & H2 & _). rewrite Hl1. rewrite Hi1 in H2. auto.
+    + destruct (overwrite_inside_spec d pos bs Hwf ltac:(lia)) as (Hw2 & Hi2 & _). auto.
+  - destruct (vreserve_spec d (pos - vlen d + length bs) Hwf) as (Hw1 & Hl1 & Hi1 & _).
+    set (d1 := vreserve d (pos - vlen d + length bs)) in *.
+    unfold vresize0.
+    destruct (vextend_spec d1 (repeat 0%N (pos - vlen d1)) Hw1) as (Hw2 & Hi2 & _).
+    destruct (vextend_spec _ bs Hw2) as (Hw3 & Hi3 & _).
+    split; [reflexivity|]. split; [exact Hw3|].
+    rewrite Hi3, Hi2, Hi1, Hl1. rewrite file_write_beyond by lia.
+    rewrite Hil, <- app_assoc. reflexivity.
+Qed.
+
+Lemma file_write_seq l pos b1 b2 :
+  pos <= length l ->
+  file_write (file_write l pos b1) (pos + length b1) b2 = file_write l pos (b1 ++ b2).
+Proof.
+  intros H.
+  rewrite (file_write_inside l pos b1 H).
+  set (X := firstn pos l).
+  assert (Hx : length X = pos) by (unfold X; rewrite firstn_length; lia).
+  assert (Hxb : length (X ++ b1) = pos + length b1) by (rewrite app_length; lia).
+  rewrite file_write_inside by (rewrite !app_length; lia).
+  rewrite (file_write_inside l pos (b1 ++ b2) H). fold X.
+  rewrite !(app_assoc X b1 (skipn (pos + length b1) l)).
+  rewrite (firstn_app_exact0 _ _ _ Hxb).
+  rewrite (skipn_app_exact _ _ _ (length b2) Hxb). rewrite skipn_skipn'.
+  rewrite app_length, <- !app_assoc. do 3 f_equal. f_equal. lia.
+Qed.
+
+Lemma vec_write_vectored_at_loop_spec : forall bss d pos,
+  wf d -> pos <= vlen d ->
+  wf (vec_write_vectored_at_loop d bss pos) /\
+  vinit (vec_write_vectored_at_loop d bss pos) = file_write (vinit d) pos (concat bss).
+Proof.
+  induction bss as [|bs bss IH]; intros d pos Hwf Hpos; cbn [vec_write_vectored_at_loop concat].
+  - split; [exact Hwf|]. rewrite file_write_inside by (rewrite vinit_length by exact Hwf; lia).
+    cbn [app length]. rewrite Nat.add_0_r. symmetry. apply firstn_skipn.
+  - destruct (Nat.leb_spec pos (vlen d)); [|lia].
+    pose proof (write_piece_spec d bs pos Hwf Hpos) as (Hw & Hi & Hl).
+    unfold write_piece in Hw, Hi, Hl.
+    destruct (IH _ (pos + length bs) Hw Hl) as (H1 & H2).
+    split; [exact H1|]. rewrite H2, Hi.
+    apply file_write_seq. rewrite vinit_length by exact Hwf. exact Hpos.
+Qed.
+
+(* Vec<u8>::write_vectored_at = write_at of the concatenation: the vectored
+   form is the sequential composition of the single-buffer writes, for every
+   destination, every position and every list of buffers; no panic *)
+Theorem vec_write_vectored_at_file d bss pos :
+  wf d ->
+  let '(k, d') := vec_write_vectored_at d bss pos in
+  k = length (concat bss) /\ wf d' /\ vinit d' = file_write (vinit d) pos (concat bss).
+Proof.
+  intros Hwf. unfold vec_write_vectored_at.
+  pose proof (vinit_length d Hwf) as Hil.
+  split; [reflexivity|].
+  destruct (Nat.leb_spec pos (vlen d)) as [Hin|Hout].
+  - destruct (vreserve_spec d (length (concat bss) - (vlen d - pos)) Hwf) as (Hw1 & Hl1 & Hi1 & _).
+    destruct (vec_write_vectored_at_loop_spec bss _ pos Hw1 ltac:(lia)) as (H1 & H2).
+    split; [exact H1|]. rewrite H2, Hi1. reflexivity.
+  - destruct (vreserve_spec d (pos - vlen d + length (concat bss)) Hwf) as (Hw1 & Hl1 & Hi1 & _).
+    set (d1 := vreserve d (pos - vlen d + length (concat bss))) in *.
+    unfold vresize0.
+    destruct (vextend_spec d1 (repeat 0%N (pos - vlen d1)) Hw1) as (Hw2 & Hi2 & Hl2).
+    destruct (vec_write_vectored_at_loop_spec bss _ pos Hw2
+                ltac:(rewrite Hl2, repeat_length; lia)) as (H1 & H2).
+    split; [exact H1|]. rewrite H2, Hi2, Hi1, Hl1.
+    rewrite file_write_inside by (rewrite app_length, repeat_length; lia).
+    rewrite file_write_beyond by lia.
+    assert (Hlen : length (vinit d ++ repeat 0%N (pos - vlen d)) = pos)
+      by (rewrite app_length, repeat_length; lia).
+    rewrite firstn_all2 by lia. rewrite skipn_all2 by lia.
+    rewrite app_nil_r, Hil, <- app_assoc. reflexivity.
+Qed.
